@@ -61,6 +61,20 @@ Theorem c04_fires_after_change_refuted :
 Proof. exact nofire_witness. Qed.
 Print Assumptions c04_fires_after_change_refuted.
 
+(* Sentence 2, for a change made while an exchange is in progress ("it fires
+   once the connection is stable"): the call that brings signaling back to
+   stable clears the flag and re-runs the check; the handler fires then, once,
+   exactly when negotiation is (still) needed. *)
+Theorem c04_fires_on_reaching_stable : forall s o sched s' out fs,
+  nstep s o sched = (s', out, fs) ->
+  fx_to_stable (snd (step (n_pc s) o)) = true ->
+  p_closed (n_pc s') = false -> p_sig (n_pc s') = Stable ->
+  (check_negotiation_needed (n_pc s') = Ok true ->
+     fs = [{| f_sig := Stable; f_closed := false |}] /\ n_flag s' = true)
+  /\ (check_negotiation_needed (n_pc s') = Ok false -> fs = [] /\ n_flag s' = false).
+Proof. exact stable_transition_rechecks. Qed.
+Print Assumptions c04_fires_on_reaching_stable.
+
 (* Sentence 3 -- FULL statement: between a firing and the completion of the next
    offer/answer exchange there is no second firing. The faithful model refutes
    it (c04_no_refire_refuted): negotiationNeededOp clears the flag when
